@@ -33,7 +33,10 @@ def parts(fn: Optional[ast.AST], e: ast.AST, depth: int = 0) -> List[Part]:
             if isinstance(v, ast.Constant):
                 out.append(("lit", v.value))
             elif isinstance(v, ast.FormattedValue):
-                out.extend(parts(fn, v.value, depth + 1) if _is_stringy(v.value) else [("hole", v.value)])
+                if _is_stringy(v.value) or (isinstance(v.value, ast.Name) and v.format_spec is None and v.conversion == -1):
+                    out.extend(parts(fn, v.value, depth + 1))
+                else:
+                    out.append(("hole", v.value))
         return _merge(out)
     if isinstance(e, ast.BinOp) and isinstance(e.op, ast.Add):
         return _merge(parts(fn, e.left, depth) + parts(fn, e.right, depth))
